@@ -748,6 +748,11 @@ def _install(w):
         def remove(self, app_name):
             orig(self, app_name)
             if w.enabled:
+                # taken off this server (by a cycle, or by a reload that replaces the server object and restores
+                # its placements): an unschedule request for that placement is spent, as Server.remove resets the mark
+                named = getattr(w, 'unsched_named', None)
+                if named and named.get(app_name) == self.name:
+                    del named[app_name]
                 chain = _site().split('<')
                 if chain[0] == 'remove_all':
                     chain = chain[1:] or ['remove_all']
@@ -802,6 +807,7 @@ def _install(w):
     z = w.loader_mod.z
     w.rec_calls, w.adj_log, w.reload_log, w.freeze_log = [], [], [], []
     w.in_reload = 0
+    w.created = []
 
     def _i(x):
         return '%d' % x if x == int(x) else repr(x)
@@ -843,15 +849,38 @@ def _install(w):
         return adjust_server_state
     patch(Loader, 'adjust_server_state', mk_adjust)
 
+    def _attrs(srv, parent):
+        return '%d,%d,%d,%d,%d,%d' % (tuple(int(x) for x in srv.init_capacity) + (
+            LABELS.get(list(srv.labels)[0], 9) if len(srv.labels) == 1 else 9, srv.traits.self_traits,
+            w.bid(parent) if parent is not None else 0))
+
     def mk_reload(orig):
         def reload_server(self, servername):
-            if _live(self):
-                w.reload_log.append(servername)
+            if not _live(self) or w.in_reload > 0:
+                w.in_reload += 1
+                try:
+                    return orig(self, servername)
+                finally:
+                    w.in_reload -= 1
+            w.reload_log.append(servername)
+            cur = self.servers.get(servername)
+            cur_s = _attrs(cur, cur.parent) if cur is not None else '~'
+            data = self.backend.get_default(z.path.server(servername))
+            c0 = len(w.created)
             w.in_reload += 1
             try:
-                return orig(self, servername)
+                r = orig(self, servername)
             finally:
                 w.in_reload -= 1
+            now = self.servers.get(servername)
+            made = w.created[c0:]
+            rec_s = '~'
+            if made and data:
+                rec_s = _attrs(made[0], self.buckets.get(data.get('parent')))
+            obs = ('loadNew' if cur is None else 'removed' if now is None else 'same' if now is cur else 'replaced')
+            w.run.op('frld %s %s' % (cur_s, rec_s), obs)
+            w.stats['fn:reload:' + obs] += 1
+            return r
         return reload_server
     patch(Loader, 'reload_server', mk_reload)
 
@@ -1008,6 +1037,7 @@ def _install(w):
         def create_server(self, servername, data):
             r = orig(self, servername, data)
             if _live(self):
+                w.created.append(r)
                 w.run.op('fsrv %s' % _enc(data.get('partition') if 'partition' in data else None),
                          _enc(list(r.labels)[0] if len(r.labels) == 1 else repr(sorted(r.labels))))
                 w.stats['fn:create_server'] += 1
